@@ -38,7 +38,7 @@ func runL2(p *l2Profile) func(r *core.Run) *core.Violation {
 func init() {
 	l2Assume := []string{"outer tx signatures are not verified; the signer is the declared signer field", "single block proposer", "the L1 side is a fabricated deposit stream with fixed content per sequence"}
 
-	c06 := &l2Profile{Prop: "C06", Blocks: [2]int{10, 50}, MaxTx: 6, Crash: 8, Hooks: 15, BadRcpt: 10, GasAbort: 3,
+	c06 := &l2Profile{Prop: "C06", Reimport: 2, Blocks: [2]int{10, 50}, MaxTx: 6, Crash: 8, Hooks: 15, BadRcpt: 10, GasAbort: 3,
 		W:       map[string]int{"relay": 60, "relaybatch": 12, "withdraw": 6, "send": 8, "params": 3, "bridgeinfo": 1},
 		NonTriv: func(w *l2World) bool { return w.m.NextL1Seq >= 4 && w.r.Probes["deposit.noop-replay"] >= 1 }}
 	core.Register(&core.Scenario{ID: "C06", Level: "exploration", Run: runL2(c06), Components: l2Components, Assumptions: l2Assume,
@@ -46,7 +46,7 @@ func init() {
 		QuickRuns: 1500, QuickSecs: 75, ThoroughRuns: 40000, ThoroughSecs: 700,
 		RequiredProbes: []string{"deposit.noop-replay", "reject.l2deposit.sequence-ahead", "reject.auth.finalize-deposit"}})
 
-	c09 := &l2Profile{Prop: "C09", Blocks: [2]int{10, 50}, MaxTx: 5, Crash: 5, DepFault: 5, GasAbort: 4, Hooks: 20, BadRcpt: 20,
+	c09 := &l2Profile{Prop: "C09", Reimport: 2, Blocks: [2]int{10, 50}, MaxTx: 5, Crash: 5, DepFault: 5, GasAbort: 4, Hooks: 20, BadRcpt: 20,
 		W:       map[string]int{"relay": 40, "relaybatch": 4, "withdraw": 35, "send": 15, "params": 2},
 		NonTriv: func(w *l2World) bool { return w.succ["withdraw"] >= 1 && w.m.NextL1Seq >= 3 }}
 	core.Register(&core.Scenario{ID: "C09", Level: "exploration", Run: runL2(c09), Components: l2Components, Assumptions: l2Assume,
@@ -54,7 +54,7 @@ func init() {
 		QuickRuns: 2500, QuickSecs: 75, ThoroughRuns: 40000, ThoroughSecs: 700,
 		RequiredProbes: []string{"reject.withdraw.non-l1-token", "reject.withdraw.insufficient", "deposit.refunded"}})
 
-	c13 := &l2Profile{Prop: "C13", Blocks: [2]int{12, 60}, MaxTx: 5, Crash: 10,
+	c13 := &l2Profile{Prop: "C13", Reimport: 2, Blocks: [2]int{12, 60}, MaxTx: 5, Crash: 10,
 		W:       map[string]int{"addval": 35, "rmval": 30, "params": 12, "exec": 10, "relay": 4, "send": 2},
 		NonTriv: func(w *l2World) bool { return w.succ["addval"] >= 1 && w.succ["rmval"] >= 1 && w.r.Probes["validators.updates-returned"] >= 2 }}
 	core.Register(&core.Scenario{ID: "C13", Level: "exploration", Run: runL2(c13), Components: l2Components, Assumptions: l2Assume,
@@ -62,7 +62,7 @@ func init() {
 		QuickRuns: 2500, QuickSecs: 75, ThoroughRuns: 40000, ThoroughSecs: 700,
 		RequiredProbes: []string{"reject.addval.cap", "reject.addval.key-exists", "validators.updates-returned"}})
 
-	c14 := &l2Profile{Prop: "C14", Blocks: [2]int{10, 40}, MaxTx: 4, Crash: 12, Plans: true,
+	c14 := &l2Profile{Prop: "C14", Reimport: 2, Blocks: [2]int{10, 40}, MaxTx: 4, Crash: 12, Plans: true,
 		W:       map[string]int{"addval": 25, "rmval": 15, "params": 12, "relay": 10, "send": 2},
 		NonTriv: func(w *l2World) bool { return w.r.Probes["plan.applied"] >= 1 }}
 	core.Register(&core.Scenario{ID: "C14", Level: "exploration", Run: runL2(c14), Components: l2Components, Assumptions: append(append([]string{}, l2Assume...), "executor-change plans live in keeper memory; the harness re-registers them after every restart as an application constructor would"),
@@ -72,7 +72,7 @@ func init() {
 }
 
 func init() {
-	c07 := &l2Profile{Prop: "C07", Blocks: [2]int{0, 8}, MaxTx: 4, Hooks: 70, BadRcpt: 30,
+	c07 := &l2Profile{Prop: "C07", Reimport: 2, Blocks: [2]int{0, 8}, MaxTx: 4, Hooks: 70, BadRcpt: 30,
 		W: map[string]int{"relay": 50, "relaybatch": 5, "withdraw": 10, "send": 15, "params": 6}}
 	core.Register(&core.Scenario{ID: "C07", Level: "fault_enumeration", Run: runC07(c07), Components: l2Components,
 		Assumptions: []string{"outer tx signatures are not verified; the signer is the declared signer field", "hook payloads carry real secp256k1 signatures checked by the real SDK decorators", "module accounts exist from genesis (DESIGN: observations outside the listed properties)"},
@@ -83,10 +83,10 @@ func init() {
 
 func init() {
 	// C12: authorisation on both chains; each run picks one chain.
-	c12l1 := &l1Profile{Prop: "C12", Blocks: [2]int{12, 50}, MaxTx: 5, Crash: 4, Periods: []time.Duration{time.Second, 10 * time.Second, time.Hour}, RegFee: true,
+	c12l1 := &l1Profile{Prop: "C12", Reimport: 2, Blocks: [2]int{12, 50}, MaxTx: 5, Crash: 4, Periods: []time.Duration{time.Second, 10 * time.Second, time.Hour}, RegFee: true,
 		W:       map[string]int{"create": 8, "deposit": 4, "propose": 14, "delete": 12, "claim": 4, "updProposer": 16, "updChallenger": 16, "batchInfo": 10, "metadata": 8, "oracleCfg": 8, "params": 6, "recordBatch": 2},
 		NonTriv: func(w *l1World) bool { return w.succ["updProposer"]+w.succ["updChallenger"] >= 2 }}
-	c12l2 := &l2Profile{Prop: "C12", Blocks: [2]int{12, 50}, MaxTx: 5, Crash: 4, Hooks: 5, BadRcpt: 5, Plans: true,
+	c12l2 := &l2Profile{Prop: "C12", Reimport: 2, Blocks: [2]int{12, 50}, MaxTx: 5, Crash: 4, Hooks: 5, BadRcpt: 5, Plans: true,
 		W:       map[string]int{"relay": 12, "withdraw": 3, "send": 3, "addval": 12, "rmval": 8, "params": 18, "spend": 8, "bridgeinfo": 14, "exec": 22},
 		NonTriv: func(w *l2World) bool { return w.succ["params"]+w.succ["exec"] >= 2 }}
 	l1run, l2run := runL1(c12l1), runL2(c12l2)
